@@ -34,18 +34,21 @@ type lockType struct {
 	SelfSync  []string            // fields holding objects that synchronise themselves (set once by the constructor)
 	Immutable []string            // fields never written after construction
 	ReadOnly  map[string][]string // guarded field -> methods of the field's value that do not modify it
+	// unexported, lock-free internals of *other* objects of the package: calling one on anything but the
+	// receiver by-passes that object's mutex
+	ForeignInternals []string
 	Exempt    map[string][2]string
 }
 
 var lockTypes = []lockType{
 	{
 		Name: "Flushable", Dir: "kvdb/flushable", Recvs: []string{"Flushable", "flushableReader"},
-		Mutexes:   map[string][]string{"lock": {"modified", "sizeEstimation"}},
-		Immutable: []string{"underlying", "onDrop", "flushableReader"},
-		ReadOnly:  map[string][]string{"modified": {"Get", "Size", "Iterator"}},
+		// `underlying` is swapped by LazyFlushable (same package) under the lock, so it counts as guarded
+		Mutexes:   map[string][]string{"lock": {"modified", "sizeEstimation", "underlying"}},
+		Immutable: []string{"onDrop", "flushableReader"},
+		ReadOnly: map[string][]string{"modified": {"Get", "Size", "Iterator"},
+			"underlying": {"Has", "Get", "Stat", "Compact", "GetSnapshot", "NewIterator"}},
 		Exempt: map[string][2]string{
-			"Stat":     {"immutable", "forwards to `underlying`, which a plain Flushable never changes after Wrap (LazyFlushable swaps it under the lock: outside this table)"},
-			"Compact":  {"immutable", "forwards to `underlying`, which a plain Flushable never changes after Wrap"},
 			"NewBatch": {"pure", "allocates a batch object; touches no field"},
 		},
 	},
@@ -53,6 +56,7 @@ var lockTypes = []lockType{
 		Name: "SyncedPool", Dir: "kvdb/flushable", Recvs: []string{"SyncedPool"},
 		Mutexes:   map[string][]string{"Mutex": {"wrappers"}, "queuedDropsMu": {"queuedDrops"}, "flushing": {}},
 		Immutable: []string{"producer", "flushIDKey"},
+		ForeignInternals: []string{"initUnderlyingDb", "flush", "put", "delete", "dropNotFlushed"},
 		Exempt: map[string][2]string{
 			"Initialize": {"lifecycle", "start-up: registers the DBs before the pool is shared (getDB without the pool lock); caller contract"},
 			"Close":      {"lifecycle", "tear-down: overwrites the whole object including its mutexes; must not run concurrently with anything (caller contract)"},
@@ -393,6 +397,8 @@ func (a *lockAnalysis) walkNode(n ast.Node, recv string, held map[string]string)
 					if fd := a.methods[sel.Sel.Name]; fd != nil {
 						a.follow(fd, held)
 					}
+				} else if contains(a.lt.ForeignInternals, sel.Sel.Name) {
+					a.irregular("calls %s, a lock-free internal of another object, without that object's mutex", sel.Sel.Name)
 				} else if f := baseField(sel.X, recv); f != "" {
 					if contains(a.lt.Conds, f) && sel.Sel.Name == "Wait" {
 						a.row.Waits = true
